@@ -23,6 +23,10 @@ type Prop struct {
 	Real, Stub []string
 	// Assumptions for the evidence file.
 	Assumptions []string
+	// Race: the thorough tier adds a pass under the race detector (plain
+	// flavour, real mutexes) and treats a data race between two accesses in
+	// coreutils code as a violation.
+	Race bool
 	// RunTimeout is the real-time budget of one run in seconds (0 = the
 	// worker's default of 60).
 	RunTimeout int
